@@ -5,6 +5,7 @@ import (
 	"fmt"
 	"runtime"
 	"sort"
+	"strings"
 
 	"github.com/NethermindEth/juno/blockchain/networks"
 	"github.com/NethermindEth/juno/db"
@@ -25,16 +26,34 @@ const (
 	clToy              // toy migrations: runner bookkeeping, every Migrate outcome except (nil, ctx err)
 	clToyNilCtx        // toy migrations including (nil, ctx err): cancellation without intermediate state
 	clBeyond           // a binary whose registry is shorter than a migration opted into but not yet applied
+	// the real history-pruner migration (prune.go)
+	clPruneCancel       // cancellation at database operations, restarts, inputs changed before the resume
+	clPruneCrash        // crash image after EVERY commit, same inputs at the restart
+	clPruneCrashChanged // crash image after every commit, inputs changed before the restart
+	clPruneCommitErr    // a commit returns an error
 	nClasses
 )
 
-var className = [...]string{"real/cancel", "real/crash", "real/commit-error", "toy", "toy/nil-ctxerr", "downgrade/opted-in-unapplied"}
+var className = [...]string{"real/cancel", "real/crash", "real/commit-error", "toy", "toy/nil-ctxerr", "downgrade/opted-in-unapplied",
+	"prune/cancel", "prune/crash", "prune/crash-changed-inputs", "prune/commit-error"}
 
 // C18 is one simulated run.
 func C18(c *sim.Ctx) {
 	t := c.T
 	// weights: 0 must be the simplest class
-	cls := [...]int{clCancel, clCrash, clCancel, clCrash, clCommitErr, clToy, clToy, clToyNilCtx, clBeyond, clCrash}[t.Draw("class", 10)]
+	cls := [...]int{clCancel, clCrash, clCancel, clCrash, clCommitErr, clToy, clToy, clToyNilCtx, clBeyond, clCrash,
+		clPruneCancel, clPruneCrash, clPruneCrashChanged, clPruneCommitErr, clPruneCancel, clPruneCrash}[t.Draw("class", 16)]
+	if only := c.Knobs["only"]; only != "" { // developer aid: JSIM_KNOB_only=<class name prefix>
+		var sel []int
+		for i, n := range className {
+			if strings.HasPrefix(n, only) {
+				sel = append(sel, i)
+			}
+		}
+		if len(sel) > 0 {
+			cls = sel[cls%len(sel)]
+		}
+	}
 	e := &env{c: c, s: &sched{}}
 	c.Logf("class %s gomaxprocs=%d", className[cls], runtime.GOMAXPROCS(0))
 	switch cls {
@@ -44,6 +63,8 @@ func C18(c *sim.Ctx) {
 		runToy(e, cls == clToyNilCtx)
 	case clBeyond:
 		runBeyond(e)
+	default:
+		runPrune(e, cls)
 	}
 }
 
@@ -177,7 +198,7 @@ func runReal(e *env, cls int) {
 	refImg := w.base.Copy()
 	in := inject{schedSeed: rc.seed, logOps: true, tag: "ref"}
 	if cls == clCrash {
-		in.images = func(k int, info opInfo, img *memory.Database) {
+		in.images = func(k int, info opInfo, _ int, img *memory.Database) {
 			images = append(images, image{k: k, info: info, img: img})
 		}
 	}
@@ -212,7 +233,7 @@ func runReal(e *env, cls int) {
 			rin := inject{schedSeed: mix(rc.seed, uint64(im.k)), tag: fmt.Sprintf("rec%d", im.k)}
 			wantNested := nested < 3 && t.Chance("nested", 1, 6)
 			if wantNested {
-				rin.images = func(k int, info opInfo, img *memory.Database) {
+				rin.images = func(k int, info opInfo, _ int, img *memory.Database) {
 					inner = append(inner, image{k: k, info: info, img: img})
 				}
 			}
@@ -762,7 +783,7 @@ func runToy(e *env, withNilCtx bool) {
 			}
 		}
 		en := append([]bool(nil), enabled...)
-		in.images = func(k int, info opInfo, cp *memory.Database) {
+		in.images = func(k int, info opInfo, _ int, cp *memory.Database) {
 			if len(images) < 40 {
 				images = append(images, image{img: cp, en: en, k: k})
 			}
